@@ -221,9 +221,11 @@ int skinny64_ctr_init(Skinny64CTR_t *ctr)
     ctr->vtable = vtable;
     ctr->ctx = 0;
 
-    /* Initialize the CTR mode context */
-    if ((*(vtable->init))(ctr))
+    /* Initialize the CTR mode context, starting from an all-zero counter */
+    if ((*(vtable->init))(ctr)) {
+        (*(vtable->set_counter))(ctr, 0, 0);
         return 1;
+    }
 
     /* Leave the object inert if the context could not be allocated */
     ctr->vtable = 0;
